@@ -448,7 +448,9 @@ let run_ns (dir : string) (nsout : string) =
         if strict then List.sort_uniq compare o = List.sort_uniq compare names
         else List.for_all (fun x -> List.mem x names) o
              && (if !order_kept then (match first_name sel with Some f -> List.mem f o | None -> true)
-                 else (names = [] || o <> [])) (* a listing in another order: SOME selected node is opened first *) in
+                 else (names = [] || o <> [] || List.length names < List.length sel))
+                 (* a listing in another order: SOME selected node is tried first - and opened unless it is one that is
+                    missing from /dev *) in
       let show_names l = if l = [] then "-" else String.concat "," l in
       let node_of_name nm = bytes_of_hex ("2f6465762f696e7075742f" ^ nm) (* "/dev/input/" ^ name *) in
       let guard_all () = (match rd with Ok ds when lookups_ok_b sys_devnode true ds && model_sel_all <> None -> Some (spec_all glob sys_devnode excl ds) | _ -> None) in
